@@ -36,6 +36,8 @@ def jobs(tier):
     for shape, K in [("single", 3), ("flat2", 3), ("nested3", K3), ("order2", 3), ("flat3", K3)]:
         for P in ([16384] if tier == "quick" else [16384, 32768]):
             out.append(("e2e.%s.P%d" % (shape, P), "job_e2e", dict(shape=shape, P=P, K=K, order="symbolic", progress=0)))
+    out.append(("e2e.dir1.P16384", "job_e2e", dict(shape="dir1", P=16384, K=3, order="reversed", progress=0)))
+    out.append(("e2e.case2.P16384", "job_e2e", dict(shape="case2", P=16384, K=2, order="symbolic", progress=0)))
     out.append(("e2e.flat2.P32768.prog1", "job_e2e", dict(shape="flat2", P=32768, K=2, order="reversed", progress=1)))
     out.append(("e2e.nested3.P65536", "job_e2e", dict(shape="nested3", P=65536, K=2, order="reversed", progress=2)))
     out.append(("e2e.flat2.auto", "job_e2e", dict(shape="flat2", P=None, K=2, order="reversed", progress=0)))
